@@ -62,5 +62,75 @@ PROPS = {
     },
 }
 
+OPTION_ASSUME = [
+    "options drawn over the product listed in C04's quantifier (dictionary limit none/u8/u16/u32/u64/default, reset threshold over [0,3], zstd on/off, every OrderSpanBy/OrderAttrs16By/OrderAttrs32By value); init-index options are outside the listed domain",
+    "histories mix cardinality-ramp batches (ids from a growing universe, sizes straddling 255 and, in the big plan, 65,535; low- and high-reuse regimes) with rich batches from the general generator",
+    "which transitions were taken is read from ProducerObserver callbacks for coverage labels only, never as an oracle",
+    "generated search, not a proof",
+]
+
+PROPS.update({
+    "C04": {
+        "module": "otap", "level": "exploration",
+        "technique": "property-based round trip (rapid) over producer-option x stream-history products, canonical-multiset oracle, default consumer",
+        "level_text": "Generated-input search over configurations x histories: every batch of every history, encoded under every drawn option set, must decode with a default consumer to the canonical multiset that was encoded. Because every option set is compared with the same option-independent canon(input), equality across option sets (the metamorphic reading) is implied. The evidence carries the histogram of index-width transitions (8>16, 16>32, overflow, reset) actually taken.",
+        "design_ref": "DESIGN.md §7 C04",
+        "rule": "rapid draws producer options and a 1-8 batch single-signal history (ramp and rich batches); NON-TRIVIAL = the observer saw a dictionary upgrade, overflow or reset, or a schema update after the first batch; DISTINCT = FNV-64 of (option set, per-batch signal/size bucket/new observer event kinds)",
+        "assumptions": OPTION_ASSUME + ["single-signal histories (interleaving is C12/C15's domain)", "strings are valid UTF-8, timestamps <= 2^63-1, nesting <= 16"],
+        "jobs": {
+            "quick": [{"test": "TestC04", "shards": 8, "checks": 2400, "timeout": 600}],
+            "thorough": [{"test": "TestC04", "shards": 16, "checks": 48000, "timeout": 3000}],
+        },
+    },
+    "C08": {
+        "module": "otap", "level": "exploration",
+        "technique": "property-based no-panic search (rapid) over hostile OTLP values x options x histories, plus generated giant batches around the 16-bit id width with an error-expected oracle",
+        "level_text": "Generated-input search with a recover wrapper around every producer call: a recovered panic is the failure. Inputs lift every domain restriction (invalid UTF-8, timestamps >= 2^63, nesting beyond 16, zero-first list/struct columns), interleave signals and options, and giants with 65,535..131,073 parents must be refused with an error (and accepted at <= 65,535) with later small batches unaffected.",
+        "design_ref": "DESIGN.md §7 C08",
+        "rule": "two generators: (a) option x history cases of 1-5 hostile batches, NON-TRIVIAL = a batch introduced a new column or follows a refused batch; (b) giants = (family of 15, n in {65535,65536,65537,70000,131073}, 0-2 small batches before/after), all non-trivial; DISTINCT = FNV-64 of the option/shape vector resp. the giant parameters",
+        "assumptions": OPTION_ASSUME + ["a panic anywhere below Producer.BatchArrowRecordsFrom*/Close is caught by recover in the harness adapter", "for exactly 65,536 parents either outcome (batch or error) is accepted"],
+        "jobs": {
+            "quick": [{"test": "TestC08", "shards": 6, "checks": 2400, "timeout": 600}, {"test": "TestC08Giants", "shards": 4, "checks": 24, "timeout": 600}],
+            "thorough": [{"test": "TestC08", "shards": 12, "checks": 60000, "timeout": 3000}, {"test": "TestC08Giants", "shards": 4, "checks": 400, "timeout": 3000}],
+        },
+    },
+    "C12": {
+        "module": "otap", "level": "exploration",
+        "technique": "property-based validity predicate (rapid): an independent arrow-go IPC mirror reader judges the producer output alone over generated option x interleaved-signal histories",
+        "level_text": "Generated-input search with a validity predicate on the emitted BatchArrowRecords only: batch ids 0,1,2..; payload[0] is the signal's main record; each payload type at most once; related payloads non-empty; schema id -> (payload type, Arrow schema) is a function and an id never returns after its payload type moved on; per schema id the payloads, incrementally and re-read from the concatenation, are one valid Arrow IPC stream for a reader that shares no code with pkg/otel.",
+        "design_ref": "DESIGN.md §7 C12, §5 mirror reader",
+        "rule": "rapid draws options and a 1-10 batch history with signals interleaved on one producer; NON-TRIVIAL = a schema id was retired, a dictionary reset happened under an unchanged schema, or signals were interleaved; DISTINCT = FNV-64 of (options, per-batch signal/size/payload-count/new events)",
+        "assumptions": OPTION_ASSUME + ["the independent reader is arrow-go's ipc.Reader (one per schema id) - the Arrow library itself is trusted", "batches the producer refuses emit nothing and consume no batch id"],
+        "jobs": {
+            "quick": [{"test": "TestC12", "shards": 8, "checks": 2400, "timeout": 600}],
+            "thorough": [{"test": "TestC12", "shards": 16, "checks": 48000, "timeout": 3000}],
+        },
+    },
+    "C13": {
+        "module": "otap", "level": "exploration",
+        "technique": "property-based bound check (rapid): dictionary sizes measured by an independent IPC mirror reader over long generated histories for every limit option",
+        "level_text": "Generated-input search with a resource-bound oracle measured on the wire: every dictionary array in every record decoded by the mirror reader must hold at most min(configured limit, capacity of its index type) entries, and no dictionary-typed column may exist with dictionaries disabled. Holds or fails independently of whether the round trip succeeds.",
+        "design_ref": "DESIGN.md §7 C13",
+        "rule": "rapid draws options and a 3-40 batch ramp/rich history (a 'big' plan with batches up to 66,000 ids crosses 65,535); NON-TRIVIAL = at least one dictionary overflow or reset was observed; DISTINCT = FNV-64 of (options, per-batch signal/size/new events)",
+        "assumptions": OPTION_ASSUME + ["arbitrarily long streams are approximated by histories of up to 40 batches whose id universe keeps growing"],
+        "jobs": {
+            "quick": [{"test": "TestC13", "shards": 8, "checks": 640, "timeout": 900}],
+            "thorough": [{"test": "TestC13", "shards": 16, "checks": 12000, "timeout": 3000}],
+        },
+    },
+    "C15": {
+        "module": "otap", "level": "exploration",
+        "technique": "property-based before/after byte equality of the OTLP input and allocator-balance check (arrow CheckedAllocator) over generated option x history cases incl. refused batches",
+        "level_text": "Generated-input search: the protobuf serialisation of every input must be byte-identical before and after encoding, and memory.CheckedAllocator.CurrentAlloc() must be 0 after Producer.Close for every history - mixed signals, schema updates, discard-and-rebuild on overflow/reset, encode errors (giants the producer refuses).",
+        "design_ref": "DESIGN.md §7 C15",
+        "rule": "rapid draws options and 1-8 batch interleaved-signal hostile histories, plus histories around a refused giant; NON-TRIVIAL = at least one schema update (record discarded and rebuilt) or a refused batch; DISTINCT = FNV-64 of (options, per-batch signal/size/new events) resp. giant parameters",
+        "assumptions": OPTION_ASSUME + ["pdata's protobuf marshalling is order-preserving, so byte equality is the right comparison", "after a producer panic (C08's verdict) the allocator balance is not judged"],
+        "jobs": {
+            "quick": [{"test": "TestC15", "shards": 6, "checks": 2400, "timeout": 600}, {"test": "TestC15Refused", "shards": 2, "checks": 12, "timeout": 600}],
+            "thorough": [{"test": "TestC15", "shards": 14, "checks": 56000, "timeout": 3000}, {"test": "TestC15Refused", "shards": 2, "checks": 200, "timeout": 3000}],
+        },
+    },
+})
+
 # Properties not claimed (yet), with the reason recorded in MANIFEST.not_applicable.
 NOT_CLAIMED = {}
